@@ -293,6 +293,10 @@ def shard_cli_equiv(seed, idx, n):
     for _ in range(n):
         for tool in ['run', 'record']:
             cliequiv.equiv_case(rng, res, tool)
+    from harness import clicall
+    for _ in range(2 * n):
+        for t in ("run", "record_start", "record_stop"):
+            clicall.one_case(rng, res, t)
     return res
 
 
